@@ -341,9 +341,9 @@ def run(tier):
     rng.shuffle(csw)            # long-running lines: spread evenly over the shards
     ext = gen_ext_lines(rng, tier)
     allc = lines + ext
-    impl, deaths = CL.run_all(vlib, drv, allc, timeout=2400, max_deaths=40)
-    hout, hdeaths = CL.run_all(vlib, drv, hist, timeout=2400)
-    cout, cdeaths = CL.run_all(vlib, drv, csw, timeout=2400)
+    impl, deaths = CL.run_all(vlib, drv, allc, timeout=(240 if tier == "quick" else 2400), max_deaths=40)
+    hout, hdeaths = CL.run_all(vlib, drv, hist, timeout=(240 if tier == "quick" else 2400))
+    cout, cdeaths = CL.run_all(vlib, drv, csw, timeout=(240 if tier == "quick" else 2400))
     hist, hout = hist + csw, hout + cout
     deaths = deaths + hdeaths + cdeaths
     nh_ok = 0
@@ -410,7 +410,13 @@ def replay(path):
         print(json.dumps(j, indent=1)[:4000])
         return 1
     drv = build_driver("h_comp", libs=LIBS)
-    out, rc, err = vlib.run_lines(drv, [case], timeout=600)
+    import subprocess
+    try:
+        out, rc, err = vlib.run_lines(drv, [case], timeout=30)
+    except subprocess.TimeoutExpired:
+        print("case:", case[:300])
+        print("FAILS: no result within 30 s: the call does not terminate or its time is not proportional to the input size")
+        return 1
     print("case:", case[:300])
     print("implementation:", (out[0][:300] if out else None), "rc", rc)
     if err:
